@@ -235,8 +235,8 @@ fn s_maps(t: &mut Tape, ctx: &mut Ctx) -> Result<(), Failure> {
 
 pub fn streams() -> Vec<Stream> {
     vec![
-        Stream { name: "values", kind: Kind::Tape { cases: |t: Tier| t.pick(40_000, 3_000_000), max_len: 200, f: s_values }, isolate: false },
-        Stream { name: "maps", kind: Kind::Tape { cases: |t: Tier| t.pick(8_000, 300_000), max_len: 200, f: s_maps }, isolate: false },
+        Stream { name: "values", kind: Kind::Tape { cases: |t: Tier| t.pick(800_000, 16_000_000), max_len: 200, f: s_values }, isolate: false },
+        Stream { name: "maps", kind: Kind::Tape { cases: |t: Tier| t.pick(100_000, 2_000_000), max_len: 200, f: s_maps }, isolate: false },
     ]
 }
 
